@@ -24,6 +24,8 @@ FAIL_EXC = (IndexError, UnboundLocalError, KeyError, ZeroDivisionError, NameErro
 
 def real_function(qn):
     path, name = qn.split("::")
+    if path.startswith("@site/"):   # a module of an installed dependency (contracts on its installed source)
+        path = path[len("@site/"):]
     modname = path[:-3].replace("/", ".")
     mod = importlib.import_module(modname)
     obj = mod
